@@ -1,7 +1,7 @@
 """C11 — memory safety / no undefined behaviour: the clauses that are structural."""
 from .. import expr as X
 from .. import query as Q
-from .. import rules_msg, rules_num, rules_rollback, rules_array
+from .. import rules_msg, rules_num, rules_rollback, rules_array, rules_cover, rules_buddy
 from . import C12
 
 
@@ -55,8 +55,17 @@ def run(ck, progs):
                      "shrink step keeps capacity >= count, for all count <= capacity <= 12; the block is reallocated to the updated capacity * "
                      "sizeof(element) and stored back; array_push checks the capacity before it stores and counts; the memmove of array_truncate_first "
                      "(fossil collection of the history and of the checkpoint log) and of array_add_at covers exactly the elements that move")
+    ck.rule("C11.8", "the share of total_sent[] a thread zeroes after a GVT message count stays inside the array, for every rank count up to MAX_NODES")
+    ck.rule("C11.9", "rs_realloc copies min(requested size, old block size) bytes out of a block it moves, and the old block size reported by "
+                     "buddy_best_effort_realloc is 1 << the order found by climbing the allocation tree from the block")
+    ck.rule("C11.10", "a history element (a tagged word) is dereferenced, directly or by a callee, only when both tag bits were tested clear on the "
+                      "path from its load, or when it is the last element of the history (no read through a misaligned pointer into a message "
+                      "the LP does not own)")
     for cfg, P in progs.items():
         _capacity(ck, P, cfg)
+        rules_msg.check_entry_derefs(ck, P, "C11.10")
+        rules_cover.check_partition_clear(ck, P, None, "C11.8")
+        rules_buddy.check_realloc_copy(ck, P, "C11.9")
         rules_array.check(ck, P, "C11.7")
         rules_array.check_moves(ck, P, "C11.7")
         rules_array.check_cached_items(ck, P, "C11.7")
